@@ -1136,7 +1136,7 @@ int main(int argc, char** argv)
     g_slots = (Slot*)shared(sizeof(Slot) * (maxk + 2));
     const size_t nbatches = (ks.size() + batch - 1) / batch;
     if ((size_t)jobs > nbatches) jobs = (int)std::max<size_t>(1, nbatches);
-    struct Shared { unsigned long next; unsigned long orderDependent; unsigned long forks; };
+    struct Shared { unsigned long next; unsigned long orderDependent; unsigned long forks; unsigned long renumbered; };
     Shared* sh = (Shared*)shared(sizeof(Shared));
     std::vector<pid_t> workers;
     for (int j = 0; j < jobs; ++j)
@@ -1167,6 +1167,20 @@ int main(int argc, char** argv)
                     });
                     size_t d = lo;
                     while (d < hi && g_slots[ks[d]].done) ++d;
+                    // a k whose numbering drifted after earlier faults in the same process is run again alone
+                    for (size_t i = lo + 1; i < d; ++i)
+                    {
+                        Slot* s2 = &g_slots[ks[i]];
+                        if (s2->outcome == O_NONDET || s2->outcome == O_NOTREACHED)
+                        {
+                            __atomic_fetch_add(&sh->forks, 1UL, __ATOMIC_SEQ_CST);
+                            __atomic_fetch_add(&sh->renumbered, 1UL, __ATOMIC_SEQ_CST);
+                            const unsigned long kk = ks[i];
+                            s2->done = 0;
+                            const int st3 = forkRun(wfd, [&]() { installHandlers(0); faultOne(sc, kk); });
+                            settle(s2, wfd, st3);
+                        }
+                    }
                     if (d == hi) { lo = hi; break; }        // the whole batch survived
                     Slot* slot = &g_slots[ks[d]];
                     settle(slot, wfd, st);
@@ -1220,7 +1234,7 @@ int main(int argc, char** argv)
         if (isBad) { if (!bad.empty()) bad += ","; bad += slotJson(s, (long)k, steps); }
         if (s.outcome == O_ABSORBED) { if (!absorbed.empty()) absorbed += ","; absorbed += std::to_string(k); }
     }
-    js << ",\"forks\":" << sh->forks << ",\"order_dependent\":" << sh->orderDependent << ",\"swept\":" << ks.size() << ",\"range\":[" << ks.front() << "," << ks.back() << "],\"after_construct\":" << afterConstruct << ",\"outcomes\":{";
+    js << ",\"forks\":" << sh->forks << ",\"order_dependent\":" << sh->orderDependent << ",\"rerun_alone_after_drift\":" << sh->renumbered << ",\"swept\":" << ks.size() << ",\"range\":[" << ks.front() << "," << ks.back() << "],\"after_construct\":" << afterConstruct << ",\"outcomes\":{";
     bool first = true;
     for (std::map<std::string, long>::iterator i = outcomes.begin(); i != outcomes.end(); ++i, first = false)
         js << (first ? "" : ",") << jstr(i->first) << ":" << i->second;
